@@ -17,16 +17,34 @@ def key_fn(case, obs, verdict):
     return ":".join(parts[:2])
 
 
-RULE = ("non-trivial: own cases with >=2 instances and >6 events; sched cases with >=2 instances; ammo cases with >=2 instances and >8 events; alias cases with >=2 shots and at least one definition "
+RULE = ("non-trivial: own cases with >=2 instances and >6 events; sched / shse cases with >=2 instances; shs cases with >=2 trials; ammo cases with >=2 instances and >8 events; alias cases with >=2 shots and at least one definition "
         "carrying metadata/headers; race cases with >=2 instances; distinct = distinct case lines")
+
+
+def translate_shared(ctx):
+    """harness/cmd/trC11: synchronisation skeleton of unlilmited.go / start_sync.go -> coq/Gen/SharedSchedGen.v
+    (own translator binary: nothing shared is edited)."""
+    tr = ctx.build_harness("trC11")
+    if tr is None:
+        return False
+    tmp = os.path.join(ctx.work, "SharedSchedGen.v")
+    rc, out = common.sh([tr, "sharedsched", common.REPO, tmp], timeout=300, env=common.goenv())
+    if rc != 0:
+        ctx.broken("translator 'trC11 sharedsched' could not re-read unlilmited.go / start_sync.go "
+                   "(a construct outside the grammar of the shared schedule's synchronisation skeleton)", out)
+        return False
+    if common.write_if_changed(os.path.join(common.COQ, "Gen", "SharedSchedGen.v"), open(tmp).read()):
+        ctx.log("regenerated Gen/SharedSchedGen.v (changed)")
+    return True
 
 
 def run(ctx):
     cov = {"rule": RULE, "evaluations": 0, "distinct_nontrivial": 0}
     ok_t = common.translate(ctx, "grpcstatus", "GrpcStatusGen.v")
+    translate_shared(ctx)
     model_ok = ok_t and ctx.coq(["Extract/ExtractC11.vo"], what="model+extraction")
     if model_ok:
-        ctx.properties()
+        ctx.properties(extra_files=["Properties/C11_sched.v", "Gen/SharedSched_bridge.v"])
     m = ctx.ocaml_model("mC11", "C11_model", "C11") if model_ok else None
     replay_kind = None
     if ctx.replay:
